@@ -165,3 +165,105 @@ def generic_path(rng, numinterfaces, sizes=None, random_frames=False, flags=None
     if trace:
         arim.ray.ray_tracing_for_paths([path])
     return path
+
+
+def snell_path(rng, numinterfaces, tilt=True, max_inc_deg=70.0, modes=None, extra_points=True):
+    """An immersion-like Path (probe | frontwall T | backwall R | frontwall R | grid, truncated to
+    `numinterfaces`; contact when 2) with ONE source and ONE target, whose wall point sets contain
+    the exact Snell crossing point of the ray (middle of three points), so that the ray-traced
+    (Fermat) ray obeys Snell's law to rounding. Walls are lines in the (x, z) plane, optionally
+    tilted by a few degrees. Returns (path, info) with info = dict(points, thetas_in, legs, vels).
+    Returns None when the drawn ray is totally reflected somewhere or too oblique."""
+    import arim
+    import arim.geometry as g
+    import arim.ray
+
+    n = numinterfaces
+    couplant = arim.Material(float(rng.uniform(1000, 1600)), density=float(rng.uniform(800, 1200)), state_of_matter="liquid")
+    cl = float(rng.uniform(4000, 6500))
+    block = arim.Material(cl, float(cl * rng.uniform(0.45, 0.65)), density=float(rng.uniform(2000, 8000)), state_of_matter="solid")
+    if n == 2:
+        mats, md = [block], [str(rng.choice(["L", "T"]))]
+    else:
+        mats = [couplant] + [block] * (n - 2)
+        md = ["L"] + [str(rng.choice(["L", "T"])) for _ in range(n - 2)]
+    if modes is not None:
+        md = list(modes)
+    vels = [m.velocity(arim.Mode[x]) for m, x in zip(mats, md)]
+    # wall k (k = 1..n-2): reference depth and tilt; kinds as in generic_path
+    zs = {2: [0.0, 20e-3], 3: [-10e-3, 0.0, 20e-3], 4: [-10e-3, 0.0, 30e-3, 15e-3], 5: [-10e-3, 0.0, 30e-3, 0.0, 15e-3]}[n]
+    tilts = [0.0] * n
+    if tilt:
+        t1 = float(rng.uniform(-0.15, 0.15))
+        t2 = float(rng.uniform(-0.15, 0.15))
+        for k in range(1, n - 1):
+            tilts[k] = t1 if zs[k] == 0.0 else t2
+    # shoot the ray
+    p = np.array([float(rng.uniform(-5e-3, 5e-3)), 0.0, zs[0]])
+    ang = float(np.deg2rad(rng.uniform(-max_inc_deg, max_inc_deg)))
+    d = np.array([np.sin(ang), 0.0, np.cos(ang)])  # going towards +z
+    pts, thetas, normals = [p], [], [np.array([0.0, 0.0, 1.0])]
+    for k in range(1, n - 1):
+        nk = np.array([np.sin(tilts[k]), 0.0, np.cos(tilts[k])])
+        p0 = np.array([0.0, 0.0, zs[k]])
+        denom = d @ nk
+        if abs(denom) < 0.2:
+            return None
+        s = ((p0 - p) @ nk) / denom
+        if s <= 1e-4:
+            return None
+        q = p + s * d
+        cos_in = abs(denom)
+        theta = float(np.arccos(min(1.0, cos_in)))
+        # refraction / reflection with mode conversion: tangential slowness is continuous
+        eta = vels[k] / vels[k - 1]
+        dt = d - denom * nk
+        dt2 = eta * dt
+        st2 = dt2 @ dt2
+        if st2 >= 0.97:
+            return None
+        reflect = k >= 2
+        sign = -np.sign(denom) if reflect else np.sign(denom)
+        d = dt2 + sign * np.sqrt(1 - st2) * nk
+        p = q
+        pts.append(q)
+        thetas.append(theta)
+        normals.append(nk)
+    # last leg to the target
+    if n == 2:
+        length = float(rng.uniform(5e-3, 40e-3))
+    else:
+        length = float(rng.uniform(5e-3, 25e-3))
+    target = p + length * d
+    if n >= 3 and not (1e-3 < target[2] < 29e-3):
+        return None
+    pts.append(target)
+    normals.append(np.array([0.0, 0.0, 1.0]))
+    ifaces = []
+    for k in range(n):
+        if 0 < k < n - 1 and extra_points:
+            tdir = np.array([np.cos(tilts[k]), 0.0, -np.sin(tilts[k])])
+            d1, d2 = rng.uniform(0.3e-3, 3e-3, size=2)
+            coords = np.stack([pts[k] - d1 * tdir, pts[k], pts[k] + d2 * tdir])
+        else:
+            coords = pts[k][None, :]
+        P = g.Points(coords, f"I{k}")
+        frame = np.array([[np.cos(tilts[k]), 0.0, -np.sin(tilts[k])], [0.0, 1.0, 0.0], [np.sin(tilts[k]), 0.0, np.cos(tilts[k])]])
+        ori = g.Points(np.broadcast_to(frame, (len(coords), 3, 3)).copy(), f"O{k}")
+        if n == 2:
+            kind = [dict(are_normals_on_out_rays_side=True), dict(are_normals_on_inc_rays_side=True)][k]
+        else:
+            spec = [dict(are_normals_on_out_rays_side=True),
+                    dict(kind="fluid_solid", transmission_reflection="transmission", are_normals_on_inc_rays_side=False, are_normals_on_out_rays_side=True),
+                    dict(kind="solid_fluid", transmission_reflection="reflection", reflection_against=couplant, are_normals_on_inc_rays_side=False, are_normals_on_out_rays_side=False),
+                    dict(kind="solid_fluid", transmission_reflection="reflection", reflection_against=couplant, are_normals_on_inc_rays_side=True, are_normals_on_out_rays_side=True)]
+            kind = dict(are_normals_on_inc_rays_side=True) if k == n - 1 else spec[k]
+        ifaces.append(arim.Interface(P, ori, **kind))
+    path = arim.Path(tuple(ifaces), tuple(mats), tuple(md), name="".join(md[1:]) if n > 2 else md[0])
+    arim.ray.ray_tracing_for_paths([path])
+    # the Fermat ray must go through the exact crossing points (middle samples)
+    idx = path.rays.indices[:, 0, 0]
+    if extra_points and any(idx[k] != 1 for k in range(1, n - 1)):
+        return None
+    legs = [float(np.linalg.norm(pts[k + 1] - pts[k])) for k in range(n - 1)]
+    return path, dict(points=pts, thetas_in=thetas, legs=legs, vels=vels, modes=md, couplant=couplant, block=block, tilts=tilts)
